@@ -27,6 +27,8 @@ type parserASTNode = ecalparser.ASTNode
 var ecalPrettyPrint = ecalparser.PrettyPrint
 
 type c08x struct {
+	file   *ast.File         // prettyprinter.go (for one-expression helper predicates)
+	depth  int
 	canon  map[string]string // parameter name of ppNeedsBrackets -> parent / child / childIndex
 	consts map[string]string // NodeXXX -> value
 	ok     bool
@@ -118,6 +120,30 @@ func (x *c08x) cond(e ast.Expr) string {
 	case *ast.Ident:
 		if v.Name == "true" || v.Name == "false" {
 			return v.Name
+		}
+	case *ast.CallExpr:
+		// helper predicate on parent / child whose body is a single return expression: inline it
+		if fn, ok := v.Fun.(*ast.Ident); ok && len(v.Args) == 1 && x.file != nil && x.depth < 4 {
+			if arg, ok := v.Args[0].(*ast.Ident); ok && (x.canon[arg.Name] == "parent" || x.canon[arg.Name] == "child") {
+				for _, d := range x.file.Decls {
+					fd, ok := d.(*ast.FuncDecl)
+					if !ok || fd.Name.Name != fn.Name || fd.Recv != nil || len(fd.Type.Params.List) != 1 ||
+						len(fd.Type.Params.List[0].Names) != 1 || len(fd.Body.List) != 1 {
+						continue
+					}
+					ret, ok := fd.Body.List[0].(*ast.ReturnStmt)
+					if !ok || len(ret.Results) != 1 {
+						continue
+					}
+					saved := x.canon
+					x.canon = map[string]string{fd.Type.Params.List[0].Names[0].Name: saved[arg.Name]}
+					x.depth++
+					r := "(" + x.cond(ret.Results[0]) + ")"
+					x.depth--
+					x.canon = saved
+					return r
+				}
+			}
 		}
 	case *ast.BinaryExpr:
 		switch v.Op {
@@ -304,6 +330,7 @@ func c08Tool(args []string) int {
 		fmt.Fprintln(os.Stderr, err)
 		return 2
 	}
+	x.file = ppf
 	var steps [][2]string // condition, result
 	final := ""
 	found := false
